@@ -222,6 +222,9 @@ def ctrlOnInit (w : World) (order : Order) (conn port cpPort : String) (version 
 /-- core `ChanOpenInit` on the controller with the ICA callback -/
 def ctrlInit (w : World) (order : Order) (conn port cpPort : String) (version : Option (Option Metadata)) :
     World × Except Err Nat :=
+  -- core's own validation comes first: the connection must exist (before the application callback)
+  if (KV.get w.peer conn).isNone then (w, .error .coreState)
+  else
   match ctrlOnInit w order conn port cpPort version with
   | .error e => (w, .error e)
   | .ok m =>
